@@ -49,6 +49,7 @@ from typing_extensions import Unpack, NotRequired, Required, TypedDict
 from zoneinfo import ZoneInfo
 from mashumaro import DataClassDictMixin, field_options
 from mashumaro.config import BaseConfig
+from mashumaro.types import Alias
 from mashumaro.codecs.basic import BasicEncoder as _BE
 def _wire(x):
     return _BE(type(x)).encode(x)
@@ -195,14 +196,29 @@ def gen_data(r, tbl: Table, depth, probe, clsname=None, generic=False):
         if (seen_default or r.random() < 0.35) and not contains_tvar(t):
             seen_default = True
             default = "gen"         # value generated later (needs the finished table)
-        alias = None
-        if r.random() < 0.25:
-            alias = r.choice(["A", "al", "k-1", "x y", "é", "$ref", "type"]) + str(i)
+        # three independent alias sources with different values on the same field:
+        # field metadata, Annotated[..., Alias(...)], Config.aliases
+        pool = ["A", "al", "k-1", "x y", "é", "$ref", "type", "camelCase", "snake_case", "id"]
+        a_meta = a_ann = a_cfg = None
+        if r.random() < 0.3:
+            names = r.sample(pool, 3)
+            c = r.random()
+            a_meta = names[0] + str(i) if c < 0.6 else None
+            a_cfg = names[1] + str(i) if r.random() < 0.6 else None
+            # an Annotated Alias that actually decides (no metadata alias) is a known finding: probe mode only
+            if r.random() < 0.4 and (a_meta is not None or probe):
+                a_ann = names[2] + str(i)
+            if a_meta is None and a_cfg is None and a_ann is None:
+                a_meta = names[0] + str(i)
         init = True
         if probe and default is not None and r.random() < 0.15:
             init = False
-        fields.append({"name": fname, "type": t, "default": default, "alias": alias, "init": init,
-                       "alias_via": r.choice(["meta", "config"])})
+        fields.append({"name": fname, "type": t, "default": default, "init": init,
+                       "alias_meta": a_meta, "alias_ann": a_ann, "alias_cfg": a_cfg,
+                       # key written by the serializer (by alias): metadata, else Annotated Alias, else Config.aliases
+                       "alias": a_meta if a_meta is not None else a_ann if a_ann is not None else a_cfg,
+                       # key the schema is *observed* to use where it ignores the Annotated Alias (known finding)
+                       "schema_alias": a_meta if a_meta is not None else a_cfg})
     d = {"kind": "data", "name": name, "clsname": clsname or name, "fields": fields, "tvars": tvars}
     tbl.add(d)
     return d
@@ -307,16 +323,10 @@ def gen_type(r, tbl: Table, depth, probe):
             return r.choice(SCALARS)
         if c < 0.8:
             return ("leaf", r.choice(list(LEAVES)))
-        if c < 0.9:
+        if c < 0.87:
             e = gen_enum(r, tbl, allow_flag=True)
             return ("enum", e["name"])
-        lits = r.sample(["1", "2", "'a'", "'b'", "True", "None", "b'x'", "-5", "''"], r.randrange(1, 4))
-        # Literal[1, True] would collapse: keep one of each python-equal group
-        out = []
-        for s in lits:
-            if not any(eval(s) == eval(o) and type(eval(s)) is not bytes for o in out):
-                out.append(s)
-        return ("lit", out)
+        return gen_literal(r, tbl)
     c = r.random()
     if c < 0.10:
         return ("list", gen_type(r, tbl, depth - 1, probe))
@@ -363,6 +373,56 @@ def gen_type(r, tbl: Table, depth, probe):
         d = gen_td(r, tbl, depth, probe)
         return ("td", d["name"])
     return ("newtype", gen_type(r, tbl, depth - 1, probe))
+
+
+def gen_literal(r, tbl):
+    """Literal[...] lists: typing keeps members that differ in (value, type), so ==-equal but
+    distinct members (0/False, 1/True, IntEnum member/int/bool, str-enum member/str) coexist"""
+    pool = ["0", "1", "2", "-5", "True", "False", "'a'", "'b'", "''", "'1'", "None", "b'x'"]
+    if r.random() < 0.4:
+        kind = r.choice(["IntEnum", "IntEnum", "StrEnum", "Enum"])
+        name = tbl.fresh("E")
+        if kind == "IntEnum":
+            vals = r.sample(["0", "1", "2"], r.randrange(1, 4))
+        elif kind == "StrEnum":
+            vals = r.sample(["'a'", "'b'", "''"], r.randrange(1, 3))
+        else:
+            vals = r.sample(["1", "'a'", "None", "0"], r.randrange(1, 3))
+        members = [(f"M{i}", v) for i, v in enumerate(vals)]
+        tbl.add({"kind": "enum", "name": name, "clsname": name, "base": kind, "members": members})
+        pool += [f"{name}.{m}" for m, _ in members] * 2
+    n = r.choice([1, 1, 2, 2, 3, 4, 5])
+    out = []
+    if r.random() < 0.5:
+        # seed the list with two members of one ==-class (they differ in type, so typing keeps both)
+        classes = {}
+        for s in dict.fromkeys(pool):
+            try:
+                v = eval(s, {name: _LitEnumProxy(tbl.by_name[name]) for name in tbl.by_name if tbl.by_name[name]["kind"] == "enum"})
+            except Exception:
+                continue
+            if isinstance(v, bytes) or v is None:
+                continue
+            classes.setdefault(v if not isinstance(v, _LitMember) else v.value, []).append(s)
+        groups = [g for g in classes.values() if len(g) > 1]
+        if groups:
+            out = r.sample(r.choice(groups), 2)
+    for s in r.sample(pool, min(n, len(pool))):
+        if s not in out:
+            out.append(s)
+    return ("lit", out)
+
+
+class _LitMember:
+    def __init__(self, value):
+        self.value = value
+
+
+class _LitEnumProxy:
+    """member values of a declared enum, for grouping literal sources by Python equality"""
+    def __init__(self, d):
+        for m, v in d["members"]:
+            setattr(self, m, _LitMember(eval(v)))
 
 
 def gen_hashable_type(r, tbl, depth, probe):
@@ -450,12 +510,14 @@ def decl_src(d, tbl: Table) -> str:
             body.append(f"    {m} = {v}")
     elif d["kind"] == "data":
         aliases_cfg = {}
-        any_alias = any(f["alias"] for f in d["fields"])
+        any_alias = any(f["alias"] is not None for f in d["fields"])
         bases = "DataClassDictMixin" + (", Generic[T]" if d["tvars"] else "")
         body.append("@dataclass")
         body.append(f"class {d['clsname']}({bases}):")
         for f in d["fields"]:
             ts = ty_src(f["type"], tbl, nts)
+            if f.get("alias_ann") is not None:
+                ts = f"Annotated[{ts}, Alias({f['alias_ann']!r})]"
             opts = []
             if f["default"] is not None:
                 kind, vsrc = f["default"]
@@ -465,11 +527,10 @@ def decl_src(d, tbl: Table) -> str:
                     opts.append(f"default_factory=lambda: {vsrc}")
             if not f["init"]:
                 opts.append("init=False")
-            if f["alias"] is not None:
-                if f["alias_via"] == "meta":
-                    opts.append(f"metadata=field_options(alias={f['alias']!r})")
-                else:
-                    aliases_cfg[f["name"]] = f["alias"]
+            if f.get("alias_meta") is not None:
+                opts.append(f"metadata=field_options(alias={f['alias_meta']!r})")
+            if f.get("alias_cfg") is not None:
+                aliases_cfg[f["name"]] = f["alias_cfg"]
             if opts:
                 body.append(f"    {f['name']}: {ts} = field({', '.join(opts)})")
             else:
